@@ -33,10 +33,15 @@ def _path(ext):
     return os.path.join(d, f"l{next(_counter)}.{ext}")
 
 
+ENCODINGS = [None, None, "utf8", "latin-1", "cp1252", "ascii"]
+
+
 def _lib(kind, path, **kw):
     import molli as ml
     import atexit
 
+    if kw.get("encoding", 0) is None:
+        kw.pop("encoding")
     lib = (ml.MoleculeLibrary if kind == "mol" else ml.ConformerLibrary)(path, **kw)
     atexit.unregister(lib._backend.flush)
     return lib
@@ -66,6 +71,13 @@ def check(recipe) -> list[Fail]:
     fails: list[Fail] = []
     build = chem.build_molecule if kind == "mol" else chem.build_ensemble
     objs = [build(r) for r in recipe["objs"]]
+    if recipe.get("parallel"):
+        # a second Bond object between an already bonded pair (reversed, other type / label): part of the bond SEQUENCE like any other
+        from molli.chem import Bond, BondType
+        for o in objs:
+            if o.n_bonds:
+                b0 = o.bonds[recipe["parallel"] % o.n_bonds]
+                o.append_bond(Bond(b0.a2, b0.a1, label="par" if v == 2 else None, btype=BondType.Double if b0.btype != BondType.Double else BondType.Aromatic, f_order=1.5))
     lib_cls = "Molecule" if kind == "mol" else "ConformerEnsemble"  # what the library promises to return
     if recipe.get("f32cls") and kind == "mol":
         # a Molecule subclass declared through the public __init_subclass__ hook (coords_dtype=float32)
@@ -75,19 +87,20 @@ def check(recipe) -> list[Fail]:
         raise HarnessError("keys must be unique")
     expected = [dict(chem.snapshot(o, attrib_f32=True, f32=True), cls=lib_cls) for o in objs]
     path = _path("mlib" if kind == "mol" else "clib")
+    enc = ENCODINGS[recipe.get("enc", 0)]     # the `encoding=` option of the library constructor: keys are stored and found whatever it says
     try:
         pre = recipe.get("pre")
         if v == 1:
             UKVFile(path, "x", h1=b"ML10Library").close()
-            lib = _lib(kind, path, readonly=False, bufsize=BUFS[recipe["buf"]])
+            lib = _lib(kind, path, readonly=False, bufsize=BUFS[recipe["buf"]], encoding=enc)
         elif pre in ("v1", "v2"):
             # an existing library (legacy or current, holding a stale record) is overwritten
             f = UKVFile(path, "x", h1=b"ML10Library" if pre == "v1" else None)
             f.put(b"stale", b"\x90")
             f.close()
-            lib = _lib(kind, path, readonly=False, overwrite=True, bufsize=BUFS[recipe["buf"]])
+            lib = _lib(kind, path, readonly=False, overwrite=True, bufsize=BUFS[recipe["buf"]], encoding=enc)
         else:
-            lib = _lib(kind, path, readonly=False, bufsize=BUFS[recipe["buf"]])
+            lib = _lib(kind, path, readonly=False, bufsize=BUFS[recipe["buf"]], encoding=enc)
 
         def compare(got_obj, i, route):
             got = chem.snapshot(got_obj)
@@ -135,7 +148,7 @@ def check(recipe) -> list[Fail]:
             read_all(lib, "same handle, later reading session")
         if fails:
             return fails
-        lib2 = _lib(kind, path)
+        lib2 = _lib(kind, path, encoding=enc)
         with lib2.reading():
             read_all(lib2, "new handle")
         if v == 1 and not fails:
@@ -192,7 +205,7 @@ def check(recipe) -> list[Fail]:
             with lib.reading():
                 read_all(lib, "same handle, after edited objects were stored again")
             if not fails:
-                lib4 = _lib(kind, path)
+                lib4 = _lib(kind, path, encoding=enc)
                 with lib4.reading():
                     read_all(lib4, "new handle, after edited objects were stored again")
             for f in fails:
@@ -211,7 +224,8 @@ def _enc_v1(kind, r, obj):
     import numpy as np
 
     atoms = [(a["el"], a["iso"], a["label"], a["atype"], a["stereo"], a["geom"]) for a in r["atoms"]]
-    bonds = [(b["a"], b["b"], b["label"], b["btype"], b["stereo"], float(b["f_order"])) for b in r["bonds"]]
+    ai = {id(a): i for i, a in enumerate(obj.atoms)}
+    bonds = [(ai[id(b.a1)], ai[id(b.a2)], b.label, int(b.btype), int(b.stereo), float(b.f_order)) for b in obj.bonds]   # (incl. a parallel bond added after the recipe was realised)
     na = len(atoms)
     f4 = lambda x, shape: np.asarray(x, dtype=np.float64).reshape(shape).astype(">f4").tobytes()
     with np.errstate(over="ignore", invalid="ignore"):
@@ -224,7 +238,7 @@ def _enc_v1(kind, r, obj):
 
 
 def classify(recipe):
-    labels = [f"bufsize={BUFS[recipe['buf']]}", f"n_objs={len(recipe['objs'])}"] + (["edited_objects_stored_again"] if recipe.get("rewrite") else []) + (["float32_subclass"] if recipe.get("f32cls") else []) + ([f"overwrites_existing_{recipe['pre']}_library"] if recipe.get("pre") else [])
+    labels = [f"bufsize={BUFS[recipe['buf']]}", f"n_objs={len(recipe['objs'])}"] + (["edited_objects_stored_again"] if recipe.get("rewrite") else []) + (["float32_subclass"] if recipe.get("f32cls") else []) + ([f"encoding={ENCODINGS[recipe.get('enc', 0)]}"]) + (["parallel_bond"] if recipe.get("parallel") else []) + ([f"overwrites_existing_{recipe['pre']}_library"] if recipe.get("pre") else [])
     nt = False
     for r in recipe["objs"]:
         na = len(r["atoms"])
@@ -269,7 +283,7 @@ def _case(kind, v, objs):
         "kind": st.just(kind), "v": st.just(v), "objs": st.lists(objs, min_size=1, max_size=3), "keys": _keys,
         "buf": st.integers(0, 3), "read_in_session": st.booleans(),
         "pre": st.sampled_from([None, None, None, "v1", "v2"]) if v == 2 else st.none(),
-        "rewrite": st.booleans(),
+        "rewrite": st.booleans(), "enc": st.integers(0, len(ENCODINGS) - 1), "parallel": st.sampled_from([0, 0, 0, 1, 2, 5]),
         "f32cls": st.sampled_from([False, False, True]) if kind == "mol" else st.just(False),
     })
 
